@@ -167,3 +167,18 @@ Check (C03_unknown_not_supported :
 Check (C03_offered_always_supported :
   forall cfg n, In n (offered cfg) ->
   exists m fb, report cfg n = Some (m, fb) /\ In m (mains cfg)).
+Check (C03_report_consistent :
+  forall cfg n m fb, report cfg n = Some (m, fb) ->
+  In m (mains cfg) /\
+  match fb with
+  | Some f => f = n /\ exists fs, In (m, fs) cfg /\ In n fs
+  | None => m = n /\ ~ In n (fallbacks cfg)
+  end).
+Check (C03_report_order_irrelevant :
+  forall cfg cfg' n, wf_cfg cfg -> Permutation.Permutation cfg cfg' -> report cfg' n = report cfg n).
+Check (C03_codec_resolves_like_report :
+  forall cfg n, resolve cfg n = option_map fst (report cfg n)).
+Check (C03_fallback_oracle_exact :
+  forall cfg n r, wf_cfg cfg -> ok_rep cfg n r = true -> r = report cfg n).
+Check (C03_fallback_oracle_accepts_model :
+  forall case : list N, ok_fallback case (run_fallback case) = true).
